@@ -102,6 +102,7 @@ fn cmd_sched(args: &[String]) -> i32 {
                             sched::run_controlled(cfg, sc.n, sched::Policy::Probe(h, (h >> 20) as usize % 14))
                         }
                         "ungated" => sched::run_ungated(cfg, sc.n),
+                        "cmdgates" => sched::run_controlled_opts(cfg, sc.n, sched::Policy::Random(&[], seed ^ hash_str(&format!("{i}-{count}"))), true),
                         "guided" => {
                             // wishes: [action, kind, spec id, first]; ids are translated to the names txtpp prints
                             let wishes: Vec<(String, String, String, bool)> = sv["wishes"].as_array().map(|a| a.iter().map(|w| {
